@@ -61,16 +61,16 @@ def stream_sched(ctx):
         for fn in sorted(os.listdir(cdir)):
             c = json.load(open(os.path.join(cdir, fn)))
             judge(c02.Run(c["program"], sched.replay_chooser(c["schedule"])).execute(), c["program"], "corpus")
-    for pi in range(ctx.n(25, 150) * boost):
+    for pi in range(ctx.n(25, 60) * boost):
         r1 = rng.fork("p%d" % pi)
         prog = c02.gen_program(r1, nthreads=r1.range(2, 3), kinds=KINDS)
         if not any(op[0] == "fork" for ops in prog["threads"] for op in ops):
             prog["threads"][0].append(["fork"])
         if pi < 2:
             ctx.sample({"stream": "sched", "program": prog})
-        c02.dfs_schedules(prog, bound=ctx.n(2, 3), limit=ctx.n(35, 300),
+        c02.dfs_schedules(prog, bound=ctx.n(2, 3), limit=ctx.n(35, 250),
                           on_run=lambda r, pre, prog=prog: judge(r, prog, "dfs"))
-    for i in range(ctx.n(250, 10000) * boost):
+    for i in range(ctx.n(250, 4000) * boost):
         r2 = rng.fork("r%d" % i)
         prog = c02.gen_program(r2, maxops=3, kinds=KINDS)
         judge(c02.Run(prog, sched.random_chooser(r2, r2.choice([15, 35, 60]))).execute(), prog, "random")
